@@ -67,11 +67,18 @@ def tlc(module, cfg, workers=None, simulate=None, depth=None, seed=None, coverag
     meta = os.path.join(BUILD, "tlc", tag + "_" + str(os.getpid()))
     shutil.rmtree(meta, ignore_errors=True)
     os.makedirs(meta, exist_ok=True)
-    cmd = ["java", "-XX:+UseParallelGC"]
-    cmd += java_opts or ["-Xmx8g"]
-    cmd += ["-cp", JAR, "tlc2.TLC", "-metadir", meta, "-config", cfg]
+    # VERIF_TLC_WORKERS / VERIF_TLC_XMX cap the resources of every TLC run (shared machine, development)
+    cap = int(os.environ.get("VERIF_TLC_WORKERS", "0") or "0")
     if workers is None:
         workers = NCPU
+    if cap:
+        workers = max(1, min(workers, cap))
+    cmd = ["java", "-XX:+UseParallelGC", "-XX:ParallelGCThreads=%d" % max(2, min(8, workers))]
+    xmx = os.environ.get("VERIF_TLC_XMX")
+    cmd += [o for o in (java_opts or ["-Xmx8g"]) if not (xmx and o.startswith("-Xmx"))]
+    if xmx:
+        cmd += ["-Xmx" + xmx]
+    cmd += ["-cp", JAR, "tlc2.TLC", "-metadir", meta, "-config", cfg]
     cmd += ["-workers", str(workers)]
     if simulate is not None:
         cmd += ["-simulate", "num=%d" % simulate]
